@@ -59,6 +59,84 @@ fn gen_doc(rng: &mut SplitMix64) -> (String, bool, bool) {
     (doc, well, repeats)
 }
 
+/// serde round trips and rayon collects over maps / sets whose keys crowd into few bins (tree bins,
+/// bins split by resizes): the serialised / collected contents must be those of sequential insertion
+fn crowded<S>(name: &str, rng: &mut SplitMix64, r: &mut BulkResult)
+where
+    S: std::hash::BuildHasher + Default + Clone + Send + Sync + 'static,
+{
+    let n = 9 + rng.below(40);
+    let presize = [0usize, 48, 200][rng.below(3) as usize];
+    let items: Vec<(u32, u32)> = (0..n).map(|j| (rng.below(70) as u32, j as u32)).collect();
+    let reference: BTreeMap<u32, u32> = items.iter().cloned().collect();
+    let refset: BTreeSet<u32> = reference.keys().cloned().collect();
+    let items2 = items.clone();
+    let res = catch_unwind(AssertUnwindSafe(move || {
+        let items = items2;
+        let map: HashMap<u32, u32, S> = HashMap::with_capacity_and_hasher(presize, S::default());
+        let set: HashSet<u32, S> = HashSet::with_capacity_and_hasher(presize, S::default());
+        for (k, v) in &items {
+            map.pin().insert(*k, *v);
+            set.pin().insert(*k);
+        }
+        let s1 = serde_json::to_string(&map).map_err(|e| e.to_string())?;
+        let s2 = serde_json::to_string(&map.pin()).map_err(|e| e.to_string())?;
+        let std_back: BTreeMap<String, u32> = serde_json::from_str(&s1).map_err(|e| e.to_string())?;
+        let std_back2: BTreeMap<String, u32> = serde_json::from_str(&s2).map_err(|e| e.to_string())?;
+        let want: BTreeMap<String, u32> = reference.iter().map(|(k, v)| (k.to_string(), *v)).collect();
+        if std_back != want || std_back2 != want {
+            return Err(format!("serialised map does not hold the map's contents ({} of {} entries): {}", std_back.len(), want.len(), s1));
+        }
+        let back: HashMap<u32, u32, S> = serde_json::from_str(&s1).map_err(|e| e.to_string())?;
+        let g = back.guard();
+        let got: BTreeMap<u32, u32> = back.iter(&g).map(|(k, v)| (*k, *v)).collect();
+        if got != reference || back.len() != reference.len() || reference.iter().any(|(k, v)| back.get(k, &g) != Some(v)) {
+            return Err(format!("map round trip is not equal to the original: {}", s1));
+        }
+        let t1 = serde_json::to_string(&set).map_err(|e| e.to_string())?;
+        let t2 = serde_json::to_string(&set.pin()).map_err(|e| e.to_string())?;
+        let std_s: BTreeSet<u32> = serde_json::from_str(&t1).map_err(|e| e.to_string())?;
+        let std_s2: BTreeSet<u32> = serde_json::from_str(&t2).map_err(|e| e.to_string())?;
+        if std_s != refset || std_s2 != refset {
+            return Err(format!("serialised set does not hold the set's elements ({} of {}): {}", std_s.len(), refset.len(), t1));
+        }
+        let sback: HashSet<u32, S> = serde_json::from_str(&t1).map_err(|e| e.to_string())?;
+        let gs = sback.guard();
+        if sback.iter(&gs).cloned().collect::<BTreeSet<u32>>() != refset || refset.iter().any(|k| !sback.contains(k, &gs)) {
+            return Err(format!("set round trip differs: {}", t1));
+        }
+        // rayon over the same items
+        let collected: HashMap<u32, u32, S> = items.clone().into_par_iter().collect();
+        let mut extended: HashMap<u32, u32, S> = HashMap::with_capacity_and_hasher(presize, S::default());
+        extended.par_extend(items.clone().into_par_iter());
+        let cset: HashSet<u32, S> = items.iter().map(|x| x.0).collect::<Vec<_>>().into_par_iter().collect();
+        for (what, m) in [("from_par_iter", &collected), ("par_extend", &extended)] {
+            let g = m.guard();
+            let keys: BTreeSet<u32> = m.iter(&g).map(|(k, _)| *k).collect();
+            if keys != refset || m.len() != refset.len() || refset.iter().any(|k| !m.contains_key(k, &g)) {
+                return Err(format!("{}: key set differs from sequential insertion ({} of {} keys)", what, keys.len(), refset.len()));
+            }
+            for (k, v) in m.iter(&g) {
+                if !items.iter().any(|x| x.0 == *k && x.1 == *v) {
+                    return Err(format!("{}: key {} maps to {}, which the iterator never supplied for it", what, k, v));
+                }
+            }
+        }
+        let gc = cset.guard();
+        if cset.iter(&gc).cloned().collect::<BTreeSet<u32>>() != refset {
+            return Err("set from_par_iter: element set differs".to_string());
+        }
+        Ok::<(), String>(())
+    }));
+    r.roundtrips += 1;
+    r.par_runs += 1;
+    match res {
+        Ok(Ok(())) => {}
+        Ok(Err(e)) => r.failures.push(format!("crowded bins (hasher {}, capacity {}, {} items): {}", name, presize, n, e)),
+        Err(_) => r.failures.push(format!("crowded bins (hasher {}, capacity {}, {} items): panic", name, presize, n)),
+    }
+}
+
 pub fn run(seed: u64, n_docs: u64, n_maps: u64, n_par: u64) -> BulkResult {
     let mut r = BulkResult {
         failures: vec![],
@@ -162,6 +240,19 @@ pub fn run(seed: u64, n_docs: u64, n_maps: u64, n_par: u64) -> BulkResult {
                 a.len() == b.len() && b.iter().all(|(k, v)| a.get(k, &g) == Some(v))
             });
         }
+    }
+    // 1c. the same round trips and parallel collects with keys that crowd into few bins (tree
+    // bins at 64 and more bins, split again by later resizes)
+    for _ in 0..(n_maps / 4).max(6) {
+        use crate::types::{ModeBuild, H_HIGH, H_HIGHONES, H_ONES, H_SAMEBIN, H_ZERO};
+        crowded::<ModeBuild<H_ZERO>>("zero", &mut rng, &mut r);
+        crowded::<ModeBuild<H_SAMEBIN>>("samebin", &mut rng, &mut r);
+        crowded::<ModeBuild<H_HIGH>>("highbit", &mut rng, &mut r);
+        crowded::<ModeBuild<H_ONES>>("ones", &mut rng, &mut r);
+        crowded::<ModeBuild<H_HIGHONES>>("highones", &mut rng, &mut r);
+    }
+    if r.samples.len() < 8 {
+        r.samples.push("crowded-bin round trips and parallel collects (hashers zero / samebin / highbit / ones / highones, capacities 0 / 48 / 200)".into());
     }
     // 2. generated documents
     for _ in 0..n_docs {
